@@ -230,6 +230,7 @@ func RunC02(c *Ctx, r *Report) {
 	r.Floors[prefix+"nocrash.bounds.slice"] = 10
 
 	c.truncatedToHeaderRule(r, prefix+"truncated-to-header", a.DecodeDecrypt)
+	c.wrapOfNilRule(r, prefix+"error.wrap-of-nil", scope, 10)
 
 	// rule 7: errors are errors
 	rule7 := prefix + "errors-are-errors"
@@ -719,5 +720,107 @@ func (c *Ctx) truncatedToHeaderRule(r *Report, rule string, dd *ssa.Function) {
 		r.bad(rule, key, bad[0], "the success return at "+strings.Join(bad, ", ")+" is reachable for a datagram that ends behind a header whose NextPayload is SK (the 28-octet prefix of any protected message): it is accepted as an empty unprotected message instead of being refused")
 	default:
 		r.ok(rule, key, c.Pos(dd.Pos()), fmt.Sprintf("none of the %d success return(s) is reachable when the payload list is empty and the header's NextPayload is SK", n), true)
+	}
+}
+
+// knownNilAt: why value e is nil whenever block b runs ("" when that is not known): e is the nil constant, b is
+// only reached over the nil edge of a test of e, or e merges values each of which is nil on its own edge.
+func (c *Ctx) knownNilAt(e ssa.Value, b *ssa.BasicBlock, depth int) string {
+	if isNilConst(e) {
+		return "the wrapped error is the nil constant"
+	}
+	if depth > 3 {
+		return ""
+	}
+	for x := b; x != nil; x = x.Idom() {
+		if len(x.Preds) != 1 {
+			continue
+		}
+		p := x.Preds[0]
+		iff, ok := p.Instrs[len(p.Instrs)-1].(*ssa.If)
+		if !ok || p.Succs[0] == p.Succs[1] {
+			continue
+		}
+		cond, ok := iff.Cond.(*ssa.BinOp)
+		if !ok || (cond.Op != token.EQL && cond.Op != token.NEQ) {
+			continue
+		}
+		var tested ssa.Value
+		if isNilConst(cond.Y) {
+			tested = cond.X
+		} else if isNilConst(cond.X) {
+			tested = cond.Y
+		}
+		if tested != e {
+			continue
+		}
+		if (cond.Op == token.EQL) == (p.Succs[0] == x) {
+			return "it is only reached over the edge of `" + c.SrcExpr(cond) + "` (" + c.InstrPos(iff) + ") on which that error is nil"
+		}
+	}
+	if ph, ok := e.(*ssa.Phi); ok && (ph.Block() == b || ph.Block().Dominates(b)) {
+		var whys []string
+		for i, ed := range ph.Edges {
+			if ed == ssa.Value(ph) {
+				continue
+			}
+			pred := ph.Block().Preds[i]
+			w := c.knownNilAt(ed, pred, depth+1)
+			if w == "" {
+				// the edge itself is the nil edge of a test of the merged value
+				if iff, ok := pred.Instrs[len(pred.Instrs)-1].(*ssa.If); ok && pred.Succs[0] != pred.Succs[1] {
+					if cond, ok := iff.Cond.(*ssa.BinOp); ok && (cond.Op == token.EQL || cond.Op == token.NEQ) {
+						var tested ssa.Value
+						if isNilConst(cond.Y) {
+							tested = cond.X
+						} else if isNilConst(cond.X) {
+							tested = cond.Y
+						}
+						if tested == ed && (cond.Op == token.EQL) == (pred.Succs[0] == ph.Block()) {
+							w = "it comes in over the edge of `" + c.SrcExpr(cond) + "` (" + c.InstrPos(iff) + ") on which that error is nil"
+						}
+					}
+				}
+			}
+			if w == "" {
+				return ""
+			}
+			whys = appendUniq(whys, w)
+		}
+		if len(whys) > 0 {
+			return "every value merged into it is nil on its edge (" + strings.Join(whys, "; ") + ")"
+		}
+	}
+	return ""
+}
+
+// wrapOfNilRule: github.com/pkg/errors.Wrap / Wrapf / WithMessage / WithMessagef / WithStack return nil when the
+// error they are given is nil. A failure exit written as `return nil, errors.Wrapf(err, ...)` at a point
+// where err is known to be nil (the no-error edge of its own test dominates the call, or it is the nil
+// constant) therefore reports success.
+func (c *Ctx) wrapOfNilRule(r *Report, rule string, scope []*ssa.Function, floor int) {
+	r.Rule(rule, "no error is built by wrapping an error value that is nil at that point (pkg/errors wrappers hand nil through, which would turn the failure exit into a success)", floor)
+	wrappers := map[string]bool{
+		"github.com/pkg/errors.Wrap": true, "github.com/pkg/errors.Wrapf": true,
+		"github.com/pkg/errors.WithMessage": true, "github.com/pkg/errors.WithMessagef": true,
+		"github.com/pkg/errors.WithStack": true,
+	}
+	for _, fn := range scope {
+		for _, b := range fn.Blocks {
+			for _, ins := range b.Instrs {
+				call, ok := ins.(*ssa.Call)
+				if !ok {
+					continue
+				}
+				cal := call.Call.StaticCallee()
+				if cal == nil || !wrappers[cal.String()] || len(call.Call.Args) == 0 {
+					continue
+				}
+				e := call.Call.Args[0]
+				key := c.FuncName(fn) + ": " + c.SrcExpr(call)
+				why := c.knownNilAt(e, b, 0)
+				r.Check(why == "", rule, key, c.InstrPos(call), "the wrapped error is not known to be nil here", why+": the wrapper returns nil and the failure is reported as success")
+			}
+		}
 	}
 }
